@@ -49,13 +49,13 @@ CHANNELS = {f"multi_{k}_{r}": glue(k, r) for k in ("arc", "ogre_arc") for r in (
 
 HARNESSES = [  # (fn, props, call, pooled_only, stub_sync, thorough_only)
  ("send_fanout",                       "C03 C04",       "kit::multi_fanout::<Ch, $n, $m>(Entry::Send)", False, False),
- ("send_with_fanout",                  "C03 C04",       "kit::multi_fanout::<Ch, $n, $m>(Entry::SendWith)", False, False),
- ("send_with_async_fanout",            "C03 C04",       "kit::multi_fanout::<Ch, $n, $m>(Entry::SendWithAsync)", False, False),
+ ("send_with_fanout",                  "C03 C04 tier=thorough",       "kit::multi_fanout::<Ch, $n, $m>(Entry::SendWith)", False, False),
+ ("send_with_async_fanout",            "C03 C04 tier=thorough",       "kit::multi_fanout::<Ch, $n, $m>(Entry::SendWithAsync)", False, False),
  ("try_send_reserved_fanout",          "C03 C04 C08",   "kit::multi_fanout::<Ch, $n, $m>(Entry::Reserved)", True, False),
  ("payload_released_after_last_listener", "C05 C14 C03", "kit::multi_payload_released_after_last_listener::<Ch, $n, $m>()", False, False),
  ("new_listener_sees_nothing_old",     "C10",           "kit::multi_new_listener_sees_nothing_old::<Ch, $n, $m>()", False, True),
  ("rejected_send_changes_nothing",     "C16",           "kit::multi_rejected_send_changes_nothing::<Ch, $n, $m>(Entry::Send)", True, False),
- ("rejected_send_with_changes_nothing","C16",           "kit::multi_rejected_send_changes_nothing::<Ch, $n, $m>(Entry::SendWith)", True, False),
+ ("rejected_send_with_changes_nothing","C16 tier=thorough",           "kit::multi_rejected_send_changes_nothing::<Ch, $n, $m>(Entry::SendWith)", True, False),
  ("teardown_with_buffered_events",     "C05",           "kit::multi_teardown_with_buffered_events::<Ch, $n, $m>()", False, False),
  ("suspended_async_send_blocks_nobody","C20 spin=violation", "kit::multi_suspended_async_send_blocks_nobody::<Ch, $n, $m>()", False, False),
  ("reserved_slot",                     "C08",           "kit::multi_reserved_slot::<Ch, $n, $m>()", True, False),
@@ -73,8 +73,8 @@ def gen(name, g):
 // ring origins, any set of live listeners). The obligations are the generic ones of /verif/kani/mutiny_stream.rs (`kit`).
 {'// reserve_slot / try_send_reserved / try_cancel_slot_reserve `panic!` upstream for this channel (not implemented): no reserved-slot harnesses.' if g['kind'] == 'arc' else ''}
 // @module {g['module']}
-// @sizes multi_proofs: n2m1=quick n2m2=quick n4m2=thorough
-// @jobs 4
+// @sizes multi_proofs: n2m1=quick n2m2=thorough n4m2=thorough
+// @jobs 6 thorough=3
 #[allow(unused_imports)] use super::*;
 #[allow(unused_imports)] use crate::mutiny_stream::verif_hooks::{{self as ms, MultiModel, Entry}};
 #[allow(unused_imports)] use crate::streams_manager::verif_hooks as sm;
